@@ -577,3 +577,199 @@ Section ApLeaves.
       destruct (de_end E s') as [s1| | |] eqn:He; cbn [lift tbind]; try discriminate. exfalso. exact (Hst s1 eq_refl).
   Qed.
 End ApLeaves.
+
+(* ================================================================================================================================
+   4. Main statements of this file
+   ================================================================================================================================ *)
+Lemma agree_transfer_ap r1 r2 tr : same_mod_borrow r1 r2 -> agree r1 tr -> agree r2 tr.
+Proof.
+  unfold same_mod_borrow, agree. destruct r1, r2; try tauto.
+  intros H (b & Hb & Hu). exists b. split; [exact Hb|]. congruence.
+Qed.
+
+(* F12b, decoded *)
+Lemma f12b_true_iff (it : Ty.intty) n : num_ok n = true ->
+  (f12b it (render_num n) = true <->
+   int_signed it = true /\ is_128 it = false /\ nneg n = true /\ nint n = [48] /\ nfrac n = None /\ nexp n = None).
+Proof.
+  intros Hok. unfold f12b. split.
+  - intros H. apply andb_prop in H as [H Hb]. apply andb_prop in H as [Hs H128]. apply beq_bytes_eq in Hb.
+    split; [exact Hs|]. split; [destruct (is_128 it); [discriminate H128|reflexivity]|].
+    rewrite render_num_split in Hb. destruct (ApNumber.render_abs_head n Hok) as (c & r & Hcr & Hc).
+    destruct (nneg n) eqn:Hneg; cbn [app] in Hb.
+    + unfold neg_zero_lit in Hb. injection Hb as Hb. split; [reflexivity|].
+      rewrite render_abs_eq in Hb. destruct (num_ok_inv n Hok) as (Hint & Hf & Hx).
+      destruct (nint n) as [|c0 r0] eqn:Hn; [discriminate Hint|]. cbn [app] in Hb. injection Hb as -> Hb.
+      apply app_eq_nil in Hb as [-> Hb]. apply app_eq_nil in Hb as [Hb1 Hb2].
+      split; [reflexivity|]. split.
+      * destruct (nfrac n); [discriminate Hb1|reflexivity].
+      * destruct (nexp n) as [[[e sg] ds]|]; [discriminate Hb2|reflexivity].
+    + rewrite Hcr in Hb. unfold neg_zero_lit in Hb. injection Hb as -> _. discriminate Hc.
+  - intros (Hs & H128 & Hneg & Hint & Hf & Hx). rewrite Hs, H128, (render_int n Hf Hx), Hneg, Hint. reflexivity.
+Qed.
+
+(* C06 through a Value of this build, all ten integer targets: both routes exactly, and where they part *)
+Theorem C06_value_ap_all : forall cf fx (it : Ty.intty) n, arbitrary_precision cf = true -> num_ok n = true ->
+  let lit := render_num n in
+  let v := VNum (NLit lit) in
+  let E := mkEnv RSlice TEof cf in
+  (* the Value routes: str::parse — the literal's exact integer value iff it has neither fraction nor exponent, its sign is
+     admitted by the target and the value is in range; never another value *)
+  from_value_owned cf fx (TInt it) v =
+    (if lit_is_int n && (int_signed it || negb (nneg n)) && Ty.in_range it (lit_int n)
+     then VOk (DInt (lit_int n)) else VErr InvalidNumber 0 0)
+  /\ same_mod_borrow (from_value_owned cf fx (TInt it) v) (from_value_ref cf fx (TInt it) v)
+  (* against from_str on the Number's text: same success, same value, or both fail — unless F12b *)
+  /\ (f12b it lit = false ->
+      agree (from_value_owned cf fx (TInt it) v) (from_input_typed E (TInt it) lit)
+      /\ agree (from_value_ref cf fx (TInt it) v) (from_input_typed E (TInt it) lit))
+  (* F12b: `-0` into i8 / i16 / i32 / i64 is 0 through the Value and an error through the text *)
+  /\ (f12b it lit = true ->
+      from_value_owned cf fx (TInt it) v = VOk (DInt 0) /\ exists c i, from_input_typed E (TInt it) lit = TErr c i).
+Proof.
+  intros cf fx it n Hap Hok lit v E.
+  assert (Hval : from_value_owned cf fx (TInt it) v =
+                 (if lit_is_int n && (int_signed it || negb (nneg n)) && Ty.in_range it (lit_int n)
+                  then VOk (DInt (lit_int n)) else VErr InvalidNumber 0 0)) by (apply C06_value_ap_lit; assumption).
+  assert (Hsame : same_mod_borrow (from_value_owned cf fx (TInt it) v) (from_value_ref cf fx (TInt it) v))
+    by (apply owned_ref_agree; reflexivity).
+  split; [exact Hval|]. split; [exact Hsame|]. split.
+  - intros Hx.
+    assert (Hag : agree (from_value_owned cf fx (TInt it) v) (from_input_typed E (TInt it) lit)).
+    { apply (num_agree_text cf fx Hap (TInt it) n (num_agree_int cf fx Hap it) Hok).
+      unfold value_de_fuel. cbn [ty_depth claim_ap]. fold lit. rewrite Hx. reflexivity. }
+    split; [exact Hag|exact (agree_transfer_ap _ _ _ Hsame Hag)].
+  - intros Hx. apply (f12b_true_iff it n Hok) in Hx as (Hs & H128 & Hneg & Hint & Hf & Hxp). split.
+    + rewrite Hval. unfold lit_is_int, lit_int, lit_abs. rewrite Hf, Hxp, Hs, Hneg, Hint. cbn [andb orb digits_val].
+      destruct it; try discriminate Hs; try discriminate H128; reflexivity.
+    + unfold lit. rewrite (render_int n Hf Hxp), Hneg, Hint. unfold from_input_typed.
+      pose proof (TypedInt.C06_text_64 (typed_fuel (TInt it) (TypedInt.int_lit true [48]) - 1) E it true [48] [] 0 false DEPTH0 eq_refl H128 eq_refl I) as HT.
+      cbv zeta in HT. replace (Ty.in_range it (TypedInt.int_lit_val true [48]) && negb (TypedInt.is_neg_zero true [48])) with false in HT
+        by (rewrite andb_false_r; reflexivity).
+      destruct HT as (c & i & HT & _). exists c, i.
+      change (init_st (TypedInt.int_lit true [48])) with (mkSt (TypedInt.int_lit true [48] ++ []) 0 false DEPTH0).
+      replace (typed_fuel (TInt it) (TypedInt.int_lit true [48])) with (S (typed_fuel (TInt it) (TypedInt.int_lit true [48]) - 1)) by (unfold typed_fuel; lia).
+      rewrite HT. reflexivity.
+Qed.
+
+(* the exclusions of [claim_ap] on a scalar target, spelled out *)
+Fixpoint scalar_core (t : ty) : ty := match t with TOption t1 | TNewtype t1 => scalar_core t1 | _ => t end.
+Definition scalar_excluded (t : ty) (lit : bytes) : bool :=
+  match scalar_core t with
+  | TInt it => f12b it lit
+  | TF64 => negb (short_lit lit)
+  | _ => false
+  end.
+
+Lemma claim_ap_scalar fx lit : forall t fuel, scalar_ty t = true -> (ty_depth t <= fuel)%nat ->
+  claim_ap fx fuel t (VNum (NLit lit)) = negb (scalar_excluded t lit).
+Proof.
+  unfold scalar_excluded.
+  induction t; intros fuel Ht Hf; cbn [scalar_ty] in Ht; try discriminate Ht; cbn [ty_depth] in Hf;
+    (destruct fuel as [|f]; [lia|]); cbn [claim_ap scalar_core]; try reflexivity.
+  - rewrite negb_involutive. reflexivity.
+  - apply IHt; [exact Ht|lia].
+  - apply IHt; [exact Ht|lia].
+Qed.
+
+(* C16 under arbitrary_precision, scalar targets, on a Number holding any well-formed literal: from_value::<T>(v), T::deserialize(&v)
+   and from_str::<T>(&to_string(&v)) (the text IS the literal: [ap_number_text]) all succeed with the same result or all fail,
+   except F12b; f64 needs float_roundtrip (and the literal shorter than 10^8 bytes) *)
+Theorem C16_ap_scalars : forall cf fx t n, arbitrary_precision cf = true -> num_ok n = true -> scalar_ty t = true ->
+  (scalar_has_f64 t = true -> float_roundtrip cf = true) ->
+  scalar_excluded t (render_num n) = false ->
+  let v := VNum (NLit (render_num n)) in
+  agree (from_value_owned cf fx t v) (from_input_typed (mkEnv RSlice TEof cf) t (render_num n))
+  /\ agree (from_value_ref cf fx t v) (from_input_typed (mkEnv RSlice TEof cf) t (render_num n))
+  /\ same_mod_borrow (from_value_owned cf fx t v) (from_value_ref cf fx t v).
+Proof.
+  intros cf fx t n Hap Hok Ht Hf Hx v.
+  assert (Hsame : same_mod_borrow (from_value_owned cf fx t v) (from_value_ref cf fx t v))
+    by (apply owned_ref_agree, scalar_owned, Ht).
+  assert (Hag : agree (from_value_owned cf fx t v) (from_input_typed (mkEnv RSlice TEof cf) t (render_num n))).
+  { apply (num_agree_text cf fx Hap t n (num_agree_scalar cf fx Hap t Ht Hf) Hok).
+    rewrite (claim_ap_scalar fx (render_num n) t (value_de_fuel t) Ht) by (unfold value_de_fuel; lia). rewrite Hx. reflexivity. }
+  split; [exact Hag|]. split; [exact (agree_transfer_ap _ _ _ Hsame Hag)|exact Hsame].
+Qed.
+
+(* ================================================================================================================================
+   5. Witnesses: every exclusion is a real disagreement; the neighbouring literals are not
+   ================================================================================================================================ *)
+Definition ap_cfa : cfg := mkCfg false false true false.       (* arbitrary_precision *)
+Definition ap_cfar : cfg := mkCfg false true true false.       (* arbitrary_precision + float_roundtrip *)
+Definition ap_fx0 : fenv := mkFenv (fun _ => []) (fun _ => []).
+Local Notation Ea := (mkEnv RSlice TEof ap_cfa).
+Local Notation Ear := (mkEnv RSlice TEof ap_cfar).
+
+(* F12b: `-0` *)
+Example F12b_i8 : from_value_owned ap_cfa ap_fx0 (TInt Ty.I8) (VNum (NLit [45; 48])) = VOk (DInt 0)
+  /\ from_input_typed Ea (TInt Ty.I8) [45; 48] = TErr (Message MInvalidType) 2.
+Proof. split; vm_compute; reflexivity. Qed.
+Example F12b_i16 : from_value_owned ap_cfa ap_fx0 (TInt Ty.I16) (VNum (NLit [45; 48])) = VOk (DInt 0)
+  /\ from_input_typed Ea (TInt Ty.I16) [45; 48] = TErr (Message MInvalidType) 2.
+Proof. split; vm_compute; reflexivity. Qed.
+Example F12b_i32 : from_value_owned ap_cfa ap_fx0 (TInt Ty.I32) (VNum (NLit [45; 48])) = VOk (DInt 0)
+  /\ from_input_typed Ea (TInt Ty.I32) [45; 48] = TErr (Message MInvalidType) 2.
+Proof. split; vm_compute; reflexivity. Qed.
+Example F12b_i64 : from_value_ref ap_cfa ap_fx0 (TInt Ty.I64) (VNum (NLit [45; 48])) = VOk (DInt 0)
+  /\ from_input_typed Ea (TInt Ty.I64) [45; 48] = TErr (Message MInvalidType) 2.
+Proof. split; vm_compute; reflexivity. Qed.
+Example F12b_option_newtype : from_value_owned ap_cfa ap_fx0 (TOption (TNewtype (TInt Ty.I8))) (VNum (NLit [45; 48])) = VOk (DSome (DNewtype (DInt 0)))
+  /\ from_input_typed Ea (TOption (TNewtype (TInt Ty.I8))) [45; 48] = TErr (Message MInvalidType) 2.
+Proof. split; vm_compute; reflexivity. Qed.
+(* ... and nothing else: i128 reads `-0` as 0 on both routes, the unsigned targets refuse it on both routes *)
+Example neg_zero_i128 : from_value_owned ap_cfa ap_fx0 (TInt Ty.I128) (VNum (NLit [45; 48])) = VOk (DInt 0)
+  /\ from_input_typed Ea (TInt Ty.I128) [45; 48] = TOk (DInt 0).
+Proof. split; vm_compute; reflexivity. Qed.
+Example neg_zero_u8 : from_value_owned ap_cfa ap_fx0 (TInt Ty.U8) (VNum (NLit [45; 48])) = VErr InvalidNumber 0 0
+  /\ from_input_typed Ea (TInt Ty.U8) [45; 48] = TErr (Message MInvalidType) 2.
+Proof. split; vm_compute; reflexivity. Qed.
+Example neg_zero_u128 : from_value_owned ap_cfa ap_fx0 (TInt Ty.U128) (VNum (NLit [45; 48])) = VErr InvalidNumber 0 0
+  /\ from_input_typed Ea (TInt Ty.U128) [45; 48] = TErr NumberOutOfRange 1.
+Proof. split; vm_compute; reflexivity. Qed.
+(* `-0.0` and `1e2` (an integer-valued literal with an exponent): both routes refuse, for 64- and 128-bit targets *)
+Example neg_zero_frac_i64 : from_value_owned ap_cfa ap_fx0 (TInt Ty.I64) (VNum (NLit [45; 48; 46; 48])) = VErr InvalidNumber 0 0
+  /\ from_input_typed Ea (TInt Ty.I64) [45; 48; 46; 48] = TErr (Message MInvalidType) 4.
+Proof. split; vm_compute; reflexivity. Qed.
+Example exp_int_i64 : from_value_owned ap_cfa ap_fx0 (TInt Ty.I64) (VNum (NLit [49; 101; 50])) = VErr InvalidNumber 0 0
+  /\ from_input_typed Ea (TInt Ty.I64) [49; 101; 50] = TErr (Message MInvalidType) 3.
+Proof. split; vm_compute; reflexivity. Qed.
+Example exp_int_i128 : from_value_owned ap_cfa ap_fx0 (TInt Ty.I128) (VNum (NLit [49; 101; 50])) = VErr InvalidNumber 0 0
+  /\ from_input_typed Ea (TInt Ty.I128) [49; 101; 50] = TErr TrailingCharacters 2
+  /\ de_typed 5 Ea (TInt Ty.I128) (init_st [49; 101; 50]) = TOk (DInt 1, mkSt [101; 50] 1 true 128).   (* the "stuck" clause *)
+Proof. repeat split; vm_compute; reflexivity. Qed.
+(* f64: `-0`, `-0.0`, `1e2` are the same float on both routes, with and without float_roundtrip *)
+Example f64_neg_zero : from_value_owned ap_cfa ap_fx0 TF64 (VNum (NLit [45; 48])) = VOk (DFloat 9223372036854775808)
+  /\ from_input_typed Ea TF64 [45; 48] = TOk (DFloat 9223372036854775808).
+Proof. split; vm_compute; reflexivity. Qed.
+Example f64_1e2 : from_value_owned ap_cfa ap_fx0 TF64 (VNum (NLit [49; 101; 50])) = VOk (DFloat 4636737291354636288)
+  /\ from_input_typed Ea TF64 [49; 101; 50] = TOk (DFloat 4636737291354636288).
+Proof. split; vm_compute; reflexivity. Qed.
+(* f64 WITHOUT float_roundtrip: 9007199254740993.0 — the Value route (std) gives 0x433...000, the text route (default float path:
+   90071992547409930 as f64 / 10, two roundings) the next float up; WITH float_roundtrip the two routes agree (leaf_f64) *)
+Definition lit_2p53p1_0 : bytes := [57; 48; 48; 55; 49; 57; 57; 50; 53; 52; 55; 52; 48; 57; 57; 51; 46; 48].
+Example f64_default_path_differs :
+  from_value_owned ap_cfa ap_fx0 TF64 (VNum (NLit lit_2p53p1_0)) = VOk (DFloat 4845873199050653696)
+  /\ from_input_typed Ea TF64 lit_2p53p1_0 = TOk (DFloat 4845873199050653697).
+Proof. split; vm_compute; reflexivity. Qed.
+Example f64_roundtrip_agrees :
+  from_value_owned ap_cfar ap_fx0 TF64 (VNum (NLit lit_2p53p1_0)) = VOk (DFloat 4845873199050653696)
+  /\ from_input_typed Ear TF64 lit_2p53p1_0 = TOk (DFloat 4845873199050653696).
+Proof. split; vm_compute; reflexivity. Qed.
+(* F20 (fixed): an out-of-range literal is an error on both routes *)
+Example f64_overflow_both_fail : from_value_owned ap_cfar ap_fx0 TF64 (VNum (NLit [49; 101; 57; 57; 57])) = VErr NumberOutOfRange 0 0
+  /\ from_input_typed Ear TF64 [49; 101; 57; 57; 57] = TErr NumberOutOfRange 5.
+Proof. split; vm_compute; reflexivity. Qed.
+(* the other scalars: a type error on both routes *)
+Example bool_on_number : from_value_owned ap_cfa ap_fx0 TBool (VNum (NLit [49])) = VErr (Message MInvalidType) 0 0
+  /\ from_input_typed Ea TBool [49] = TErr (Message MInvalidType) 1.
+Proof. split; vm_compute; reflexivity. Qed.
+(* the theorem applies: hypotheses are satisfiable *)
+Example C16_ap_scalars_applies :
+  scalar_ty (TOption (TNewtype TF64)) = true /\ scalar_excluded (TOption (TNewtype TF64)) lit_2p53p1_0 = false
+  /\ scalar_excluded (TInt Ty.I8) [45; 48] = true /\ scalar_excluded (TInt Ty.I128) [45; 48] = false
+  /\ scalar_excluded (TInt Ty.I8) [45; 48; 46; 48] = false.
+Proof. repeat split; vm_compute; reflexivity. Qed.
+
+Print Assumptions C06_value_ap_all.
+Print Assumptions C16_ap_scalars.
